@@ -307,7 +307,7 @@ def schedule_plan(ctx, progs, shared_later=None):
     n = len(progs)
     base = {"order": list(progs), "debug": True, "processes": 1}
     plan = [("rerun-debug", "same", dict(base), "A")]
-    pools = list(range(1, n + 1)) if not ctx.quick else sorted({1, n})
+    pools = list(range(1, n + 1)) if not ctx.quick else sorted({1, n} | ({ctx.rng.randint(2, n - 1)} if n >= 3 else set()))
     for k in pools:
         plan.append((f"pool{k}", "workers", {"order": list(progs), "debug": False, "processes": k}, "copy"))
     # permutations: reversed + random ones, sequential and pool
@@ -368,6 +368,12 @@ def check_monitor(ctx, run, tables, label):
                          "the pickled infrastructure argument changed while the task ran (state shared between programs' copies)")
         elif t.get("infra_digest_ok"):
             ctx.count("hypothesis_infra_arg_untouched_hit")
+        if t.get("other_args_mutated"):
+            ctx.count("monitor_other_args_mutated")
+            ctx.disagree("effects-model:private-state-is-a-fresh-copy", {"schedule": sched_str(run.sched), "task": [t["prog"], t["sim"]],
+                                                                         "simulate_arg_positions": t["other_args_mutated"]},
+                         "simulate() leaves its shared arguments untouched",
+                         "a shared argument of simulate() (daylight/weather/parameter dicts/...) changed while the task ran")
         if t["np_draw_before_seed"]:
             ctx.count("monitor_draw_before_seed")
             ctx.disagree("effects-model:no-draw-before-first-reseed", {"schedule": sched_str(run.sched), "task": [t["prog"], t["sim"]],
@@ -499,8 +505,8 @@ def _digest(lst):
     return a
 
 
-def py_exec(reseed, sa, sb, prog, sim, env):
-    """prog = (prologue, days, epilogue) of ops [tag,a,b]; env = {"sh": {c: [..]}, "rng": [np, std, oth]}"""
+def py_exec(reseed, sa, sb, prog, sim, env, copies=True):
+    """prog = (prologue, days, epilogue) of ops [tag,a,b]; env = {"sh": {c: [..]}, "rng": [np, std, oth], "objs": {(sim, o): [..]}}"""
     ops = list(prog[0])
     for d, b in enumerate(prog[1]):
         if reseed:
@@ -508,6 +514,8 @@ def py_exec(reseed, sa, sb, prog, sim, env):
         ops += b
     ops += prog[2]
     acc, out = sim + 3, []
+    shared_objs = env.setdefault("objs", {})
+    own = {o: list(v) for (s_, o), v in shared_objs.items() if s_ == sim} if copies else None
     for tag, a, b in ops:
         if tag == 0:
             env["rng"][0] = sa * sim + a + sb
@@ -523,6 +531,13 @@ def py_exec(reseed, sa, sb, prog, sim, env):
             acc = _mix(acc, a)
         elif tag == 5:
             out.append(acc)
+        elif tag == 6:
+            if copies:
+                own.setdefault(a, []).append(b)
+            else:
+                shared_objs.setdefault((sim, a), []).append(b)
+        elif tag == 7:
+            acc = _mix(acc, _digest(own.get(a, []) if copies else shared_objs.get((sim, a), [])))
     return out
 
 
@@ -561,7 +576,11 @@ def model_stage(ctx):
                 ops.append([2, rng.randint(0, 2), 0])
             elif r < 0.55 and not clean:
                 ops.append([3, rng.randint(0, 2), rng.randint(0, 9)])
+            elif r < 0.65:
+                ops.append([6, rng.randint(0, 2), rng.randint(0, 9)])
             elif r < 0.75:
+                ops.append([7, rng.randint(0, 2), 0])
+            elif r < 0.85:
                 ops.append([4, rng.randint(0, 50), 0])
             else:
                 ops.append([5, 0, 0])
@@ -579,30 +598,38 @@ def model_stage(ctx):
             tasks = [[rng.randrange(len(progs)), rng.randint(0, 2)] for _ in range(rng.randint(0, 4))]
             workers.append([rng.randint(0, 99), rng.randint(0, 99), rng.randint(0, 99), tasks])
         sa, sb = rng.randint(0, 200), rng.randint(0, 50)
-        lines.append(f"run {reseed} {sa} {sb} {_enc(progs)} {_enc(workers)}")
-        cases.append((reseed, sa, sb, progs, workers, clean))
+        copies = 1 if clean or rng.random() < 0.5 else 0
+        lines.append(f"run {reseed} {copies} {sa} {sb} {_enc(progs)} {_enc(workers)}")
+        cases.append((reseed, copies, sa, sb, progs, workers, clean))
     replies = drv.run(lines)
     interfered = 0
-    for (reseed, sa, sb, progs, workers, clean), line, rep in zip(cases, lines, replies):
+    stats = {"cases": 0, "clean_schedules": 0, "clean_classes": set()}
+    for (reseed, copies, sa, sb, progs, workers, clean), line, rep in zip(cases, lines, replies):
         outs, al = [], []
         for (np_, std, oth, tasks) in workers:
             env = {"sh": {}, "rng": [np_, std, oth]}
-            outs.append([py_exec(reseed, sa, sb, progs[i], sim, env) for i, sim in tasks])
-            al.append([py_exec(reseed, sa, sb, progs[i], sim, {"sh": {}, "rng": [0, 0, 0]}) for i, sim in tasks])
+            outs.append([py_exec(reseed, sa, sb, progs[i], sim, env, bool(copies)) for i, sim in tasks])
+            al.append([py_exec(reseed, sa, sb, progs[i], sim, {"sh": {}, "rng": [0, 0, 0]}, bool(copies)) for i, sim in tasks])
         cl = [1 if py_clean(p) else 0 for p in progs]
         want = f"{_enc(outs)} | {_enc(al)} | {_enc(cl)}"
-        ctx.evaluations += 1
+        stats["cases"] += 1
         if rep != want:
             ctx.disagree("effects-machine", line, rep, want)
             continue
-        if all(cl) and reseed:
-            ctx.count("model_clean_schedules")
-            ctx.nontrivial.add(f"model:clean:{len(workers)}w:{sum(len(w[3]) for w in workers)}t")
+        if all(cl) and reseed and copies:
+            stats["clean_schedules"] += 1
+            stats["clean_classes"].add(f"{len(workers)}w:{sum(len(w[3]) for w in workers)}t")
             if outs != al:   # would contradict the theorem: report as disagreement of model and proof
                 ctx.disagree("effects-machine:noninterference", line, rep, "outputs = alone outputs")
         elif outs != al:
             interfered += 1
-    ctx.count("model_unclean_schedules_with_interference", interfered)
+    # this stage validates the compiled model against an independent rendering of the same abstract machine; it is
+    # NOT a tie to /repo and is therefore reported under its own key, outside evaluations / distinct_nontrivial
+    ctx.extra["model_machine_stage"] = {
+        "what": "drv_effects (compiled Lean machine) vs Python rendering of the same machine on random programs/schedules; "
+                "not counted in evaluations / distinct_nontrivial (it does not touch /repo)",
+        "cases": stats["cases"], "clean_schedules_outputs_equal_alone": stats["clean_schedules"],
+        "distinct_clean_shapes": len(stats["clean_classes"]), "unclean_schedules_with_interference": interfered}
     if not interfered:
         ctx.note("model stage: no interference observed in the unclean model schedules (sensitivity not shown)")
 
@@ -678,6 +705,29 @@ def table_stage(ctx, repo=None):
         ctx.broke("table obligation rng_all_seeded", json.dumps(bad, indent=1))
     if tables["sharedMutations"]:
         ctx.broke("table obligation no_shared_mutation", json.dumps(tables["sharedMutations"], indent=1))
+    ctx.extra["effects_tables"].update({
+        "prologue_functions": tables["prologueFunctions"], "functions": tables["functions"],
+        "prologue_rng_sites": tables["prologueRngSites"], "copy_wiring": tables["copyWiring"],
+        "copy_hooks": [[h["cls"], h["hook"], h["deep"]] for h in tables["copyHooks"]],
+        "nondet_sites": [[n["file"], n["line"], n["func"], n["kind"]] for n in tables["nondetSites"]],
+    })
+    if tables["prologueRngSites"]:
+        ctx.broke("table obligation prologue_clean", json.dumps(tables["prologueRngSites"], indent=1))
+    flat = [h for h in tables["copyHooks"] if not h["deep"]]
+    if flat or not (tables["copyWiring"]["deepCopies"] and tables["copyWiring"]["usesOnlyCopy"]):
+        ctx.broke("table obligation private_copy", json.dumps({"hooks": flat, "wiring": tables["copyWiring"]}, indent=1))
+    import re as _re
+
+    lean_src = open(os.path.join(core.LEAN_DIR, FILE)).read()
+    reviewed = set(_re.findall(r'\("([^"]+)",\s*"([^"]+)",\s*\.(\w+),', lean_src))
+    unrev = [n for n in tables["nondetSites"] if (n["file"], n["func"], n["kind"]) not in reviewed]
+    if unrev:
+        ctx.broke("table obligation nondet_all_reviewed", json.dumps(unrev, indent=1))
+    ctx.extra["side_obligations"] = ["consumers_reseeded: only its day-loop entry is used by theorem C12 (day_loop_reseeds); the emission-"
+                                     "generation and infrastructure entries concern the set-up phase that produces the generator folder, "
+                                     "which the machine takes as given (Folder)",
+                                     "nondet_all_reviewed: a review list (file, function, kind, reason) in Props/C12.lean, not a proof of "
+                                     "output-irrelevance; the byte comparison is the back-stop"]
     unseeded = [p for p in tables["seedPoints"] if not p["seeded"]]
     if unseeded or sum(1 for p in tables["seedPoints"] if p["kind"] == "dayLoop") != 1:
         ctx.broke("table obligation consumers_reseeded", json.dumps(unseeded or tables["seedPoints"], indent=1))
@@ -687,7 +737,9 @@ def table_stage(ctx, repo=None):
 def config_plan(ctx):
     """(ndays, n_sites, n_sims, four programs?, keep all program outputs?)"""
     if ctx.quick:
-        return [(150, 6, 1, True, True), (120, 5, 2, False, True), (200, 8, 2, True, True)]
+        # third configuration: two batches of simulations (n_sims = 6) with keep_all False — the merge of the
+        # summary files across batches and the clearing of program outputs run in the parent between tasks
+        return [(150, 6, 1, True, True), (120, 5, 2, False, True), (70, 4, 6, True, False)]
     # n_sims = 6/7: two batches of simulations (summary files merged across batches; with keep_all False the
     # per-program files of the second batch are deleted after summarising, the summaries still compared)
     return [(200, 8, 2, True, True), (180, 7, 1, True, True), (150, 6, 2, True, True), (200, 8, 3, False, True),
@@ -774,7 +826,7 @@ def replay(ctx, data):
 # extractor self-test: a synthetic source tree with one instance of every pattern the extractor claims to see
 # ------------------------------------------------------------------------------------------------
 SELFTEST_FILES = {
-    "ldar_sim_run.py": "from simulation_stub import go\nimport ldar_sim\nfrom initialization import initialize_emissions, initialize_infrastructure\n",
+    "ldar_sim_run.py": "from simulation_stub import go\nimport ldar_sim\nfrom initialization import initialize_emissions, initialize_infrastructure\nfrom simulation.simulation_helpers import simulate\n",
     "ldar_sim.py": (
         "import numpy as np\n"
         "class LdarSim:\n"
@@ -874,6 +926,60 @@ SELFTEST_FILES = {
         "        self.items.append(x)\n"                # NOT shared (dataclass field)
         "        self.HID.append(x)\n"),                # NOT shared (instance attribute hides the class-level list)
     "unreachable_mod.py": "import random\nX = []\ndef f():\n    X.append(random.random())\n",
+    "simulation/__init__.py": "",
+    "simulation/simulation_helpers.py": (
+        "import copy\n"
+        "from ldar_sim import LdarSim\n"
+        "from progstub import Program\n"
+        "def simulate(weather, infrastructure, lock):\n"
+        "    infra = copy.deepcopy(infrastructure)\n"
+        "    program = Program(infra)\n"
+        "    simulation = LdarSim()\n"
+        "    simulation.run_simulation()\n"),
+    "progstub.py": (
+        "import numpy as np\n"
+        "import os, datetime\n"
+        "SHARED = {}\n"
+        "class Program:\n"
+        "    def __init__(self, infra):\n"
+        "        self.cfg = {}\n"
+        "        self.cfg.update({1: 2})\n"              # builtin receiver: NOT linked to Other.update
+        "        self.roll = helper()\n"
+        "    def daily(self):\n"
+        "        return np.random.rand()  #@daily\n"     # reachable only from the day loop: not prologue
+        "class Other:\n"
+        "    def update(self, x):\n"
+        "        return np.random.normal()  #@other\n"   # not prologue (dict.update is not Other.update)
+        "def helper():\n"
+        "    return np.random.binomial(1, 0.5)  #@helper\n"   # prologue
+        "class Flat:\n"
+        "    def __deepcopy__(self, memo):  #@flat\n"
+        "        return self\n"
+        "class Closed:\n"
+        "    def __reduce__(self):  #@closed\n"
+        "        return (self.__class__._rebuild, (self.a,))\n"
+        "    @classmethod\n"
+        "    def _rebuild(cls, a):\n"
+        "        o = cls.__new__(cls)\n"
+        "        o.a = a\n"
+        "        return o\n"
+        "class Leaky:\n"
+        "    def __reduce__(self):  #@leaky\n"
+        "        return (self.__class__._rebuild, (self.a,))\n"
+        "    @classmethod\n"
+        "    def _rebuild(cls, a):\n"
+        "        o = cls.__new__(cls)\n"
+        "        o.a = SHARED\n"
+        "        return o\n"
+        "def nd(p):\n"
+        "    for x in set(p):  #@nd1\n"
+        "        pass\n"
+        "    s = {1, 2}\n"
+        "    y = list(s)  #@nd2\n"
+        "    z = sorted(set(p))\n"                        # order-free: not listed
+        "    os.listdir('.')  #@nd3\n"
+        "    datetime.datetime.now()  #@nd4\n"
+        "    return id(p)  #@nd5\n"),
 }
 
 SELFTEST_EXPECT = {
@@ -911,12 +1017,33 @@ def extractor_selftest(ctx):
             with open(p, "w") as fh:
                 fh.write(text)
         t = EX.Extractor(root).run().tables()
+        def ln(tag):
+            return 1 + next(i for i, l in enumerate(SELFTEST_FILES["progstub.py"].split("\n")) if l.endswith("#@" + tag))
+
+        exp2 = {
+            "prologue": [("progstub.py", ln("helper"))],
+            "hooks": sorted([("Flat", "__deepcopy__", False), ("Closed", "__reduce__", True), ("Leaky", "__reduce__", False)]),
+            "wiring": (True, True),
+            "nondet": sorted([(ln("nd1"), "setIteration"), (ln("nd2"), "setIteration"), (ln("nd3"), "dirListing"),
+                              (ln("nd4"), "wallClock"), (ln("nd5"), "identity")]),
+        }
+        got2 = {
+            "prologue": [(r["file"], r["line"]) for r in t["prologueRngSites"]],
+            "hooks": sorted((h["cls"], h["hook"], h["deep"]) for h in t["copyHooks"]),
+            "wiring": (t["copyWiring"]["deepCopies"], t["copyWiring"]["usesOnlyCopy"]),
+            "nondet": sorted((n["line"], n["kind"]) for n in t["nondetSites"] if n["file"] == "progstub.py"),
+        }
+        t["rngSites"] = [r for r in t["rngSites"] if r["file"] != "progstub.py"]
         got = {
             "rng": sorted((r["file"], r["line"], r["gen"]) for r in t["rngSites"]),
             "mut": sorted((m["file"], m["line"], m["target"], m["op"]) for m in t["sharedMutations"]),
             "points": sorted((p["file"], p["kind"], p["seeded"]) for p in t["seedPoints"]),
         }
         ok = True
+        for k in exp2:
+            if got2[k] != exp2[k]:
+                ok = False
+                ctx.broke(f"extractor self-test ({k})", json.dumps({"expected": exp2[k], "got": got2[k]}, indent=1, default=str))
         for k in ("rng", "mut", "points"):
             exp = [tuple(x) for x in SELFTEST_EXPECT[k]]
             if got[k] != exp:
